@@ -3,7 +3,7 @@
    Model: Model/Codec.v (ODVariable.encode_raw/decode_raw, struct packers, IntegerN/UnsignedN),
    tables: Gen/Tables.v regenerated from /repo on every run. *)
 From Coq Require Import ZArith List Bool.
-From CV Require Import Base.Val Base.Bytes Base.Tys Gen.Tables Gen.Src Model.Codec Proofs.Codec_proofs Proofs.Src_eq_codec.
+From CV Require Import Base.Val Base.Bytes Base.Tys Gen.Tables Gen.SrcC04 Model.Codec Proofs.Codec_proofs Proofs.Src_eq_codec.
 Import ListNotations.
 Open Scope Z_scope.
 
@@ -90,7 +90,7 @@ Theorem C04_utf16_roundtrip : forall s, forallb is_scalar s = true -> last s 1 <
 Proof. exact utf16_roundtrip. Qed.
 
 (* Tie to the source text: the range tests of IntegerN.pack / UnsignedN.pack as translated from the CURRENT source
-   by tools/py2coq.py (Gen/Src.v, regenerated on every run) are the model's in_range. *)
+   by tools/py2coq.py (Gen/SrcC04.v, regenerated on every run) are the model's in_range. *)
 Theorem C04_source_integerN_range_is_model : forall v w, 1 <= w -> src_integerN_accepts v w = in_range true w v.
 Proof. exact src_integerN_accepts_eq. Qed.
 
